@@ -6,12 +6,13 @@ Line protocol of the C03 driver (one reply line per request line).
 
   `<kind> <op> <op> …`   run the history on `Gen.CacheTable.table` from a freshly constructed model and print,
                           after each op, the observable cache state (and the answer description of calls)
-  `X <kind> <depth> full|ops`  enumerate ALL histories up to `depth` on the model (15-symbol alphabet with the six
+  `X <kind> <depth> full|ops`  enumerate ALL histories up to `depth` on the model (17-symbol alphabet with the eight
                           settings cells, or the 9 operation kinds) and check the executable invariant at every
                           state and `answer is current ∧ = answer of the rebuilt model` at every call
 
 kinds: exact kiss sgpr svgp usvgp
-ops:   P0..P5 (predict under settings cell), R (prior-mode call), T, E, S, D, L, B,
+ops:   P0..P5 (predict under an exact-path settings cell), Q1 Q2 (predict under accuracy-degrading settings),
+       R (prior-mode call), T, E, S, D, L, B,
        Fo Fe Fc Fl (get_fantasy_model: ok / rejected early / raised inside deepcopy / rejected late)
 -/
 
@@ -21,11 +22,12 @@ def parseKind : String → Option Kind
   | "exact" => some .exact | "kiss" => some .kiss | "sgpr" => some .sgpr
   | "svgp" => some .svgp | "usvgp" => some .usvgp | _ => none
 
-def cells : List Cell := [.default, .fastPredVar, .eagerKernels, .cg, .noDetach, .skipVar]
+def cells : List Cell := [.default, .fastPredVar, .eagerKernels, .cg, .noDetach, .skipVar, .degradedRoot, .degradedCG]
 
 def parseOp : String → Option Op
   | "P0" => some (.predict .default) | "P1" => some (.predict .fastPredVar) | "P2" => some (.predict .eagerKernels)
   | "P3" => some (.predict .cg) | "P4" => some (.predict .noDetach) | "P5" => some (.predict .skipVar)
+  | "Q1" => some (.predict .degradedRoot) | "Q2" => some (.predict .degradedCG)
   | "R" => some .priorPredict | "T" => some .train | "E" => some .eval | "S" => some .step
   | "D" => some .setTrainData | "L" => some .loadStateDict | "B" => some .backward
   | "Fo" => some (.fantasy .ok) | "Fe" => some (.fantasy .rejectedEarly)
@@ -73,7 +75,7 @@ def runLine (k : Kind) (ops : List Op) : String :=
 /-! ### exhaustive enumeration on the model -/
 
 /-- `full = true`: 6 predict cells + R T E S D L B + F (outcome the model expects) + F raising inside deepcopy
-(15 symbols); `full = false`: the 9 operation kinds with predict under default settings. -/
+(17 symbols); `full = false`: the 9 operation kinds with predict under default settings. -/
 def alphabet (full : Bool) : List (State → Op) :=
   let fant : State → Op := fun s => .fantasy (if fantasyAccepts T s then .ok else .rejectedEarly)
   let base : List (State → Op) :=
